@@ -228,7 +228,10 @@ def polygon_contains_lattice(ctx):
                     ctx.ensure("2d:triangle==closed-region", bool(T.contains(g.Point(*q))) == _pip_oracle(vs, q), witness=dict(triangle=vv, query=q))
         ctx.ensure("2d:point-at-infinity-not-contained", not bool(Polygon(*[g.Point(*v) for v in vs]).contains(g.Point([1, 1, 0]))), witness=dict(polygon=vs))
     motions = [translation(0, 0, 0), translation(1, 2, 3), rotation(0.7, axis=g.Point(1, 0, 0)), rotation(1.1, axis=g.Point(1, 2, 3)) * translation(0, 0, 2),
-               translation(1, 1, 1) * rotation(-0.4, axis=g.Point(1, -1, 2))]
+               translation(1, 1, 1) * rotation(-0.4, axis=g.Point(1, -1, 2)),
+               # planes far from the origin (offset larger than every normal component) with the polygon crossing coordinate planes
+               translation(5, -2, -2) * rotation(np.pi / 2, axis=g.Point(0, 1, 0)), translation(-1, 7, -1.5) * rotation(np.pi / 2, axis=g.Point(1, 0, 0)),
+               translation(3, 3, -1) * rotation(0.9, axis=g.Point(1, 1, 0)), translation(-6, -6, -6) * rotation(2.2, axis=g.Point(1, 2, 2))]
     for vs in polys[:5]:
         for mi, t in enumerate(motions):
             P = t * Polygon(*[g.Point(x, y, 0) for x, y in vs])
